@@ -22,9 +22,9 @@ RULE = ("histories = start in {0,1,3,2.5} x dt in {1,.5,.25,.1} x 1-10 steps x p
         "distinct_nontrivial = distinct (start, dt, settings pattern, compress, path) combinations with at least 2 steps and at least one "
         "step carrying settings.")
 ASSUMPTIONS = ["equality up to one JSON round trip: numeric dict keys are compared as floats, tuples as lists", "the 'lock' flag is not part of the comparison (it is cleared on save by design)"]
-REQUIRED = {"rebegun_sessions": 10, "saves_while_absent": 10, "overwrites_of_existing_state_file": 5, "histories": 100, "restores": 100, "state_fields_compared": 500, "post_restore_steps": 100}
+REQUIRED = {"twin_restores": 10, "rebegun_sessions": 10, "saves_while_absent": 10, "overwrites_of_existing_state_file": 5, "histories": 100, "restores": 100, "state_fields_compared": 500, "post_restore_steps": 100}
 BUDGET_S = {"quick": 110, "thorough": 1500}
-PATHS = ["lazy", "save-load", "timeout", "new-server", "save-while-absent"]
+PATHS = ["lazy", "save-load", "timeout", "new-server", "save-while-absent", "twin"]
 
 
 def gen_cases(tier, seed):
@@ -39,7 +39,7 @@ def gen_cases(tier, seed):
         if i % 3 == 2 and len(pattern) >= 3:
             # a second session begun on the live instance: only ITS logs may be in the state that is saved afterwards
             pattern.insert(rng.randint(1, len(pattern) - 1), "rebegin")
-        cases.append(dict(layer="rest", start=start, dt=dt, pattern=pattern, compress=bool(i % 2), path=PATHS[(i // 2) % 5], vseed=rng.randrange(10 ** 6)))
+        cases.append(dict(layer="rest", start=start, dt=dt, pattern=pattern, compress=bool(i % 2), path=PATHS[(i // 2) % 6], vseed=rng.randrange(10 ** 6)))
     # histories on which even the compressed format loses nothing (start=1, dt=1, the same constant on every step):
     # the compressed mode stays checkable there although its general lossiness is a known finding
     for i in range(24 if tier == "quick" else 400):
@@ -191,6 +191,29 @@ def run_rest(case, counters):
                 if r.status_code != 200:
                     return dict(kind="save-state-failed", status=r.status_code, body=r.get_data(as_text=True)[:200])
                 counters["saves_while_absent"] = counters.get("saves_while_absent", 0) + 1
+            elif path == "twin":
+                # a second instance with exactly the same history in the same directory; a new server restores both; the twin takes a
+                # further step; the first instance must still come back as it was saved
+                rng2 = random.Random(case["vseed"])
+                twin = json.loads(c.post("/start-instance", json={"timeout": {"hours": 5}}).get_data(as_text=True))["instance_uuid"]
+                c.post("/%s/begin-session" % twin, json={"scenario_managers": [srv.MG], "scenarios": [srv.SC], "equations": list(srv.EQS)})
+                for kind in case["pattern"]:
+                    if kind == "rebegin":
+                        c.post("/%s/begin-session" % twin, json={"scenario_managers": [srv.MG], "scenarios": [srv.SC], "equations": list(srv.EQS)})
+                    elif kind.startswith("steps"):
+                        st = settings_for({"const": "const", "empty": "empty", "points": "points"}[kind[6:]], rng2)
+                        c.post("/%s/run-steps" % twin, json={"numberSteps": int(kind[5]), "settings": st})
+                    else:
+                        st = settings_for(kind, rng2)
+                        c.post("/%s/run-step" % twin, json={"settings": st}) if st is not None else c.post("/%s/run-step" % twin)
+                app2 = srv.make_server(factory, state_dir=tmp, compress=case["compress"])
+                apps.append(app2)
+                app, c = app2, app2.test_client()
+                c.get("/%s/session-results" % twin)                     # both are restored ...
+                c.get("/%s/session-results" % iid)
+                c.post("/%s/run-step" % twin, json={"settings": {}})   # ... and the twin moves on
+                app._instance_manager._delete_instance(iid)            # the first one is restored once more from its file
+                counters["twin_restores"] = counters.get("twin_restores", 0) + 1
             elif path == "timeout":
                 clock.advance(seconds=60)
                 c.get("/metrics")
